@@ -146,6 +146,12 @@ impl SnmpV3ClientSocket {
             pl,
         ))
     }
+    /// Verification hook: position the privacy salt counter
+    #[cfg(gufo_snmp_verif)]
+    fn verif_set_salt(&mut self, value: u64) -> PyResult<()> {
+        self.priv_key.verif_set_salt(value);
+        Ok(())
+    }
     /// Get engine id
     fn get_engine_id(&self, py: Python) -> PyResult<PyObject> {
         Ok(PyBytes::new(py, &self.engine_id).into())
